@@ -642,6 +642,8 @@ type lact = RunCall of int | IOok of int | IOfail of int | Cancel of int | TL | 
 
 let run_life kvs _ =
   let scen = get kvs "scen" in
+  let starts p = String.length scen >= String.length p && String.sub scen 0 (String.length p) = p in
+  let scen = if starts "close-stall-" then "close-silent-peer" else if starts "cancel-stall-" then "cancel-stall" else scen in
   let secs z = 1000 * int_of_z z in
   let b_write = secs c_timeoutWriteClose and b_wait = secs c_timeoutWaitCloseHandshake in
   (* programs, schedule, groups of model calls per harness step of thread 0 (and extra observed threads), bound in ms *)
@@ -658,10 +660,12 @@ let run_life kvs _ =
        sect 0 @ sect 0 @ sect 0 @ sect 0 @ sect 0 @ sect 0 @ [Cancel 1; Cancel 3; TL] @ sect 0 @ sect 0, [(0, 6); (0, 2)], 0)
     | "ping-then-cancel" -> ([(0, [LCloseRead (nat_of_int 9, nat_of_int 100); wr 1; wr 2]); (100, [])], [RunCall 0; RunCall 100] @ sect 0 @ [Cancel 1; TL] @ sect 0, [(0, 1); (0, 1); (0, 1)], 0)
     | "cancel-during-read" | "deadline-during-read" -> ([0, [rd 1]], [RunCall 0; Cancel 1; TL; RunCall 0], [(0, 1)], 0)
+    | "cancel-stall" -> ([0, [rd 2; rd 2; rd 1]], sect 0 @ sect 0 @ [RunCall 0; Cancel 1; TL; RunCall 0], [(0, 2); (0, 1)], 0)
     | "cancel-during-write" -> ([0, [wr 1]], [RunCall 0; Cancel 1; TL; RunCall 0], [(0, 1)], 0)
     | "closenow-reader-blocked" -> ([(0, [LCloseNow]); (1, [rd 1])], [RunCall 1; RunCall 0; TL; RunCall 0; RunCall 1], [(0, 1); (1, 1)], 0)
     | "closenow-writer-blocked" -> ([(0, [LCloseNow]); (1, [wr 1])], [RunCall 1; RunCall 0; TL; RunCall 0; RunCall 1], [(0, 1); (1, 1)], 0)
     | "closenow-idle" -> ([0, [LCloseNow]], [RunCall 0; TL; RunCall 0], [(0, 1)], 0)
+    | "close-unmarshalable-reason" | "close-invalid-code" | "close-unmarshalable-reason-closeread" -> ([], [], [], 0)   (* results free; closed, bounded and joined *)
     | "close-echo" -> ([0, [close_]], [RunCall 0; IOok 0; RunCall 0; IOok 0; RunCall 0; TL; RunCall 0], [(0, 1)], 0)
     | "close-silent-peer" | "close-peer-floods" | "close-peer-stalls-mid-frame" ->
       ([0, [close_]], [RunCall 0; IOok 0; RunCall 0; Cancel 51; TL; RunCall 0; TL; RunCall 0], [], b_wait)
